@@ -277,3 +277,42 @@ func ZZVerifC17Continuation() {
 	nd.Assert(len(args2) == 1 && args2[0] == "nxt", "C17/cont-next-args")
 	nd.Reach("C17/cont-end")
 }
+
+// ZZVerifC17LineEnd: for every byte string without quotes and heredoc markers
+// the command ends exactly at the first newline that is not escaped by a
+// backslash (a backslash escapes the one byte that follows it; an escaped
+// newline continues the line): the first call stops right behind that
+// newline, so the next call starts at the next command; without such a
+// newline the whole input is one (last) command.
+func ZZVerifC17LineEnd() {
+	s := nd.BytesUpTo("s", nd.Param("E", 4))
+	for _, b := range s {
+		nd.Assume(nd.And(b != '"', b != '<'))
+	}
+	end := -1
+	esc := false
+	for i, b := range s {
+		if esc {
+			esc = false
+			continue
+		}
+		if b == '\\' {
+			esc = true
+			continue
+		}
+		if b == '\n' {
+			end = i
+			break
+		}
+	}
+	r := &zzByteReader{b: s}
+	_, eof, err := ReadArguments(r)
+	nd.Assert(err == nil, "C17/lineend-no-error")
+	if end >= 0 {
+		nd.Assert(!eof, "C17/lineend-command-ends-at-unescaped-newline")
+		nd.Assert(r.pos == end+1, "C17/lineend-stops-right-behind-the-newline")
+	} else {
+		nd.Assert(eof && r.pos == len(s), "C17/lineend-without-newline-reads-all")
+	}
+	nd.Reach("C17/lineend-end")
+}
